@@ -239,6 +239,37 @@ func execExtra(p *Pool, o Op, out *Outcome) (handled bool, bad error) {
 			}
 		}
 
+	case "CloneEval":
+		// replayed by the model as the constructor with the same name and index
+		if v := p.eval(a(0)); need(v != nil) {
+			c := v.Clone()
+			p.cloneShared = p.knownObject(c.EntityID())
+			h := p.add(&Ent{K: KEval, Eval: c})
+			p.register(c.EntityID(), h)
+			p.cloneLines = []string{fmt.Sprintf("NewEnumValue %d %d", nameKey(c.Name()), c.Index())}
+		}
+	case "CloneEnum":
+		// replayed by the model as the composite NewSignalEnum, then per value NewSignalEnumValue + AddValue
+		if e := p.enum(a(0)); need(e != nil) {
+			c, err := e.Clone()
+			out.Err = err
+			if err == nil {
+				p.cloneShared = p.knownObject(c.EntityID())
+				eh := p.add(&Ent{K: KEnum, Enum: c})
+				p.register(c.EntityID(), eh)
+				lines := []string{"NewEnum"}
+				for _, v := range c.Values() {
+					if p.knownObject(v.EntityID()) {
+						p.cloneShared = true
+					}
+					vh := p.add(&Ent{K: KEval, Eval: v})
+					p.register(v.EntityID(), vh)
+					lines = append(lines, fmt.Sprintf("NewEnumValue %d %d", nameKey(v.Name()), v.Index()), fmt.Sprintf("EnumAddValue %d %d 1", eh, vh))
+				}
+				p.cloneLines = lines
+			}
+		}
+
 	case "MsgAppendSignal":
 		if m := p.msg(a(0)); need(m != nil) {
 			out.Err = m.AppendSignal(p.sig(a(1)))
@@ -325,6 +356,8 @@ func init() {
 		"Assign": "AssignAttribute", "RemoveAssign": "RemoveAttributeAssignment", "RemoveAllAssign": "RemoveAllAttributeAssignments",
 		"BusSetBuilder": "Bus.SetCANIDBuilder", "NewStdSignal": "NewStandardSignal", "NewEnumSignal": "NewEnumSignal",
 		"NewMuxSignal": "NewMultiplexerSignal", "NewType": "NewIntegerSignalType",
+		"CloneEnum": "SignalEnum.Clone", "CloneEval": "SignalEnumValue.Clone", "CloneType": "SignalType.Clone", "CloneUnit": "SignalUnit.Clone",
+		"CloneAttr": "Attribute.Clone",
 	} {
 		goName[k] = v
 	}
@@ -610,7 +643,7 @@ func extraCheckL1(p *Pool, e *Ent) []string {
 func infallibleExtra(name string) bool {
 	switch name {
 	case "NewUnit", "NewAttrString", "NewBuilder", "CloneType", "CloneUnit", "MsgRemoveAllSignals", "MuxClearAll", "StdSetUnit",
-		"RemoveAllAssign", "BusSetBuilder", "NewAttrInt", "NewAttrFloat", "NewAttrEnum", "CloneAttr":
+		"RemoveAllAssign", "BusSetBuilder", "NewAttrInt", "NewAttrFloat", "NewAttrEnum", "CloneAttr", "CloneEval":
 		return true
 	}
 	return false
@@ -663,7 +696,11 @@ func extraTemplates() []template {
 	return []template{
 		{"MsgAppendSignal", 10, func(g *Gen, p *Pool) (Op, bool) { return mk("MsgAppendSignal", g.r.pick(p.of(KMsg)), g.sigPtr(p)) }},
 		{"MsgInsertSignal", 8, func(g *Gen, p *Pool) (Op, bool) {
-			return mk("MsgInsertSignal", g.r.pick(p.of(KMsg)), g.sigPtr(p), int64([]int{0, 0, 4, 8, 16, 32, 60, -1, 64}[g.r.below(9)]))
+			start := int64([]int{0, 0, 4, 8, 16, 32, 60, -1, 64}[g.r.below(9)])
+			if g.r.chance(8) {
+				start = g.extremeInt()
+			}
+			return mk("MsgInsertSignal", g.r.pick(p.of(KMsg)), g.sigPtr(p), start)
 		}},
 		{"MsgRemoveSignal", 5, func(g *Gen, p *Pool) (Op, bool) {
 			m := g.r.pick(p.of(KMsg))
@@ -711,10 +748,16 @@ func extraTemplates() []template {
 				return mk("MuxInsertSignal", args...)
 			}
 			args := []int64{mx, g.sigPtr(p), int64([]int{0, 0, 4, 8, 12, -1}[g.r.below(6)])}
+			if g.r.chance(12) {
+				args[2] = g.extremeInt()
+			}
 			if !g.r.chance(30) {
 				n := 1 + g.r.below(2)
 				for i := 0; i < n; i++ {
 					args = append(args, int64(g.r.below(m.GroupCount()+2)-1))
+				}
+				if g.r.chance(8) {
+					args[len(args)-1] = g.extremeInt()
 				}
 			}
 			return mk("MuxInsertSignal", args...)
@@ -736,6 +779,9 @@ func extraTemplates() []template {
 				return none, false
 			}
 			mx := g.r.pick(muxes)
+			if g.r.chance(10) {
+				return mk("MuxClearGroup", mx, g.extremeInt())
+			}
 			return mk("MuxClearGroup", mx, int64(g.r.below(p.mux(mx).GroupCount()+2)-1))
 		}},
 		{"MuxClearAll", 1, func(g *Gen, p *Pool) (Op, bool) {
@@ -787,6 +833,26 @@ func extraTemplates() []template {
 				b = 0
 			}
 			return mk("BusSetBuilder", g.r.pick(p.of(KBus)), b)
+		}},
+		{"CloneEnum", 6, func(g *Gen, p *Pool) (Op, bool) {
+			if len(p.of(KEnum)) >= 6 || len(p.of(KEval)) >= 26 {
+				return none, false
+			}
+			// prefer an enum that has values
+			es := p.of(KEnum)
+			for tries := 0; tries < 4; tries++ {
+				e := g.r.pick(es)
+				if len(p.enum(e).Values()) > 0 {
+					return mk("CloneEnum", e)
+				}
+			}
+			return mk("CloneEnum", g.r.pick(es))
+		}},
+		{"CloneEval", 1, func(g *Gen, p *Pool) (Op, bool) {
+			if len(p.of(KEval)) >= 26 {
+				return none, false
+			}
+			return mk("CloneEval", g.r.pick(p.of(KEval)))
 		}},
 		{"CloneType", 1, func(g *Gen, p *Pool) (Op, bool) {
 			if len(p.of(KType)) >= 8 {
@@ -939,6 +1005,11 @@ func expectExtra(p *Pool, o Op) Expect {
 		if nestedNameClash(m, s) {
 			return one("Duplicated Name")
 		}
+		// a start bit outside [0, payload bits - signal size] can never be inside the payload (judged
+		// without computing start + size, which overflows at the top of the int range)
+		if o.Name == "MsgInsertSignal" && (a(2) < 0 || a(2) > int64(m.SizeByte()*8)-int64(s.GetSize())) {
+			return one("Layout outside-the-payload")
+		}
 		return Expect{LayoutMaybe: true}
 	case "MsgRemoveSignal":
 		m, id := p.msg(a(0)), p.eid(a(1))
@@ -994,6 +1065,11 @@ func expectExtra(p *Pool, o Op) Expect {
 		// group ids and geometry: C07's subject; any GroupID / layout refusal is admitted when a
 		// group id is out of range, repeated for this signal, or mixes fixed and grouped insertion
 		ex := Expect{LayoutMaybe: true}
+		if a(2) < 0 || a(2) > int64(mx.GroupSize())-int64(s.GetSize()) {
+			// outside every group, whatever the group ids are: some refusal is documented (a layout
+			// refusal, or the refusal of a group id checked earlier)
+			ex.Refusals = append(ex.Refusals, "Layout outside-the-group")
+		}
 		gids := o.A[min(3, len(o.A)):]
 		if len(gids) == 0 {
 			if already {
@@ -1026,7 +1102,7 @@ func expectExtra(p *Pool, o Op) Expect {
 					ex.Refusals = append(ex.Refusals, "Duplicated GroupID")
 				}
 			}
-			if len(ex.Refusals) > 0 {
+			if n := len(ex.Refusals); n > 0 && !strings.HasPrefix(ex.Refusals[n-1], "Layout") {
 				break
 			}
 		}
